@@ -18,6 +18,15 @@ in numpy, and the exact box-constrained maximum by enumeration of the active set
 parameters free / at its lower bound / at its upper bound), a damped Newton iteration on the free
 coordinates to |g| < 1e-11, and the KKT sign conditions (strict concavity => unique solution).
 
+Reported convergence and the gradient: the bound on the free gradient components is the algorithm's own one
+(biogeme_optimization: |g_i| max(|x_i|,1) / max(|f|, |f(start)|, 1) <= tolerance; scipy: |proj g|_inf <= 1e-7 or a
+relative decrease <= eps).  The simple_bounds family also reports convergence=True on 'Relative change <= steptol',
+which happens with a ZERO step as soon as |g_free|_2 <= cgtolerance = eps**0.3333 ~ 6.1e-6 whatever `tolerance` is
+(see CGTOL below); the harness allows that threshold for these stops.
+
+Extra clause (one run per problem): after estimate(run_bootstrap=True) the reported log likelihood must still equal
+calculate_likelihood(x*) on the same object (the engine must not be left on a bootstrap sample).
+
 usage: c07_estimation.py <quick|thorough> <seed>     -> last stdout line = one JSON object
        c07_estimation.py --case '<json>'             -> re-run one estimation verbosely
 """
@@ -240,7 +249,7 @@ def project(x, lb, ub):
 # ------------------------------------------------------------------------------------------------
 # real code
 # ------------------------------------------------------------------------------------------------
-def build(prob, lb, ub, start, algo, tol):
+def build(prob, lb, ub, start, algo, tol, bootstrap=None):
     """a fresh BIOGEME; returns (biogeme object, list of all Beta objects created, the fixed Betas)"""
     import biogeme.biogeme as bio
     import biogeme.database as db
@@ -287,6 +296,8 @@ def build(prob, lb, ub, start, algo, tol):
         # convergence=True ('Relative change <= steptol') without any statement on the gradient
         p.set_value('tolerance', float(tol), section='SimpleBounds')
         p.set_value('steptol', STEPTOL, section='SimpleBounds')
+    if bootstrap is not None:
+        p.set_value('bootstrap_samples', int(bootstrap), section='Estimation')
     b = bio.BIOGEME(database, loglike, parameters=p)
     b.modelName = 'c07model'
     return b, free_objs, fixed_objs
@@ -428,6 +439,24 @@ def run_one(prob, cfg_name, lb, ub, start_id, start, algo, tol, targets, fail, i
     return float(d.logLike), bool(d.convergence)
 
 
+def run_bootstrap_case(prob, fail):
+    """estimate(run_bootstrap=True): the reported likelihood is still the one recomputed on the same object"""
+    K = len(prob['names'])
+    none = [None] * K
+    b, _, _ = build(prob, none, none, np.zeros(K), 'simple_bounds', TOL, bootstrap=3)
+    np.random.seed(12345)
+    r = b.estimate(run_bootstrap=True)
+    x_b = np.array(r.data.betaValues, float)
+    x = np.empty(K)
+    x[[prob['names'].index(nm) for nm in b.free_beta_names]] = x_b
+    fo = prob['model'].ll(x)
+    if not close(r.data.logLike, fo, 1e-9, 1e-9):
+        fail('after-bootstrap.loglike-equals-oracle-at-estimates', fo, r.data.logLike)
+    f_re = b.calculate_likelihood(x_b, scaled=False)
+    if not close(r.data.logLike, f_re, 1e-9, 1e-9):
+        fail('after-bootstrap.loglike-equals-recomputed', f_re, r.data.logLike)
+
+
 # ------------------------------------------------------------------------------------------------
 # driver
 # ------------------------------------------------------------------------------------------------
@@ -484,6 +513,20 @@ def main():
                     continue
                 K = len(prob['names'])
                 free_t = (prob['u'], prob['fu'])
+                if case is None:
+                    cases += 1
+                    desc = {'seed': sd, 'problem': pi, 'spec': [prob['J'], prob['names']], 'N': prob['N'],
+                            'bounds': 'none', 'start': 0, 'algo': 'simple_bounds', 'run_bootstrap': True, 'bootstrap_samples': 3}
+
+                    def bfail(clause, expected, got, desc=desc):
+                        nonlocal nfail
+                        nfail += 1
+                        if len(failures) < MAX_FAIL:
+                            failures.append({'clause': clause, 'case': desc, 'expected': expected, 'got': got})
+                    try:
+                        run_bootstrap_case(prob, bfail)
+                    except Exception as e:  # noqa: BLE001
+                        bfail('harness.exception', 'no exception', f'{type(e).__name__}: {e}')
                 for cfg_name, (lb, ub) in prob['cfgs'].items():
                     if case is not None and cfg_name != case['bounds']:
                         continue
@@ -529,7 +572,7 @@ def main():
              + f' with steptol {STEPTOL}'
              + ('' if len(tols) == 1 else f' and the defaults {DEFAULT_TOL:.3g}/{DEFAULT_STEPTOL} (first start only; '
                                           f'{info.get("steptol_stops", 0)} gradient checks after a step-length stop)')
-             + f'; {info["converged"]}/{info["runs"]} runs reported convergence; {nfail} failing checks; '
+             + f'; plus one estimate(run_bootstrap=True, 3 samples) per problem; {info["converged"]}/{info["runs"]} runs reported convergence; {nfail} failing checks; '
              f'{time.time() - t0:.1f}s')
     print(json.dumps({'cases': cases, 'bound': bound, 'failures': failures[:MAX_FAIL]}, default=str))
     sys.exit(1 if nfail else 0)
